@@ -13,3 +13,8 @@ SPECS = {
         functions=[dict(name="to_tz_aware", params=[("time", DT)], ret=ADT),
                    dict(name="get_task_delay", params=[("task", SCHED_TASK)], ret=Opt(INT))]),
 }
+
+import pygal_retry  # noqa: E402
+
+# taskiq/middlewares/retry_middleware.py: the retry decision and the re-send (C11)
+SPECS["retry"] = pygal_retry.SPEC
